@@ -134,19 +134,49 @@ func (R *Repository) tryUpdateSignatureCertFromChain(entry *Entry, chains *core.
 	}
 }
 
+// loadCRL performs the first load of an entry. The caller must hold the entry write lock.
+// Like an update the crl is staged in a temporary store and only replaces the (empty) store of the entry
+// after it was read completely and was accepted by the signature validation. A crl which is rejected or only
+// read partially (parse error, crash) never becomes visible, neither now nor as persisted data after a restart.
 func (R *Repository) loadCRL(entry *Entry, chains *core.CertificateChains) (err error) {
 	R.logger.Debug("loading crl", zap.String("crl", entry.CRLLoader.GetDescription()))
+	var store crlstore.CRLStore
 	tempFileName, err := R.createTempFile()
 	if err != nil {
 		return err
 	}
+	defer func() {
+		if err != nil && store != nil {
+			store.Close()
+			err2 := store.Delete()
+			if err2 != nil {
+				R.logger.Warn("failed to delete database", zap.Error(err2))
+			}
+		}
+	}()
 	defer utils.CloseWithErrorHandling(func() error { return os.Remove(tempFileName) })
 	err = entry.CRLLoader.LoadCRL(tempFileName)
 	if err != nil {
 		return err
 	}
 	verifhook.Hit("repo.load.downloaded")
-	var processor = crlstore.CRLPersisterProcessor{CRLStore: entry.CRLStore}
+	identifier, err := entry.CRLLoader.GetCRLLocationIdentifier()
+	if err != nil {
+		return err
+	}
+	store, err = R.Factory.CreateStore(identifier, true)
+	if err != nil {
+		return err
+	}
+	var processor = crlstore.CRLPersisterProcessor{CRLStore: store}
+	//the locations were already stored when the entry was added, take them over
+	locations, err := entry.CRLStore.GetCRLLocations()
+	if err == nil {
+		err = processor.UpdateCRLLocations(locations)
+		if err != nil {
+			return err
+		}
+	}
 	result, err := R.crlReader.ReadCRL(processor, tempFileName)
 	if err != nil {
 		return err
@@ -167,6 +197,10 @@ func (R *Repository) loadCRL(entry *Entry, chains *core.CertificateChains) (err 
 			}
 			R.logger.Debug("crl loaded successfully", zap.String("crl", entry.CRLLoader.GetDescription()))
 		}
+	}
+	err = entry.CRLStore.Update(store)
+	if err != nil {
+		return err
 	}
 	entry.Loaded = true
 	entry.Chains = nil
